@@ -29,3 +29,28 @@ Fixpoint plug_mismatches_from (i : nat) (l : list (list pcase)) : list (nat * na
   | cs :: l' => (map (fun j => (i, j, 0)) (bad_pcases 0 cs) ++ plug_mismatches_from (S i) l')%list
   end.
 Definition plug_mismatches := plug_mismatches_from 0.
+
+(* ---------- family `handoff`: the whole hand-off path as it runs in the server (production aio, Sender subsystem with
+   its queue and worker goroutine, http plugin with its queue and worker goroutine, a loopback receiver) ----------
+   receiver classes as above; observed: how many completions the submission got, whether the completion says the
+   hand-off succeeded, and whether the request the receiver saw carried THIS task (id, counter and links) *)
+Inductive hcase := CHand (cls : Z) (completions : nat) (success : bool) (receiver_saw_this_task : bool) (receiver_hits : nat).
+
+Definition hcase_ok (c : hcase) : bool :=
+  match c with
+  | CHand cls n success saw hits =>
+    Nat.eqb n 1 && Bool.eqb success (cls =? 0) &&
+    (if (cls =? 0) || (cls =? 1) then saw && Nat.eqb hits 1 else Nat.eqb hits 0)
+  end.
+
+Fixpoint bad_hcases (j : nat) (cs : list hcase) : list nat :=
+  match cs with
+  | [] => []
+  | c :: cs' => ((if hcase_ok c then [] else [j]) ++ bad_hcases (S j) cs')%list
+  end.
+Fixpoint handoff_mismatches_from (i : nat) (l : list (list hcase)) : list (nat * nat * Z) :=
+  match l with
+  | [] => []
+  | cs :: l' => (map (fun j => (i, j, 0)) (bad_hcases 0 cs) ++ handoff_mismatches_from (S i) l')%list
+  end.
+Definition handoff_mismatches := handoff_mismatches_from 0.
